@@ -28,7 +28,7 @@ def make_sub(tmpdir, d, absence, how, unit_min, tag):
     return path, m.project.time, int(m.project.status)
 
 
-def parent_spec(position, path, u_parent):
+def parent_spec(position, path, u_parent, team_targets_sub=False):
     sub = {"name": "SUB", "work": 1.0, "sub": {"file_path": path}}
     if position == "alone":
         tasks, links, tg = [sub], [], []
@@ -39,15 +39,21 @@ def parent_spec(position, path, u_parent):
     else:  # beside a worked task
         tasks, links, tg = [{"name": "P0", "work": 3.0}, sub], [], [0]
     names = [t["name"] for t in tasks if "sub" not in t]
+    skills = {n: 1.0 for n in names}
+    if team_targets_sub:
+        # the team is (needlessly) assigned to the sub-project task as well and a second, idle worker is skilled under its name
+        tg = list(range(len(tasks)))
+        return {"tasks": tasks, "links": links, "unit_min": u_parent,
+                "teams": [{"name": "TM0", "targets": tg, "workers": [{"name": "W0", "skills": skills, "cost": 1.0}, {"name": "W1", "skills": {"SUB": 1.0}, "cost": 5.0}]}]}
     return {"tasks": tasks, "links": links, "unit_min": u_parent,
-            "teams": [{"name": "TM0", "targets": tg, "workers": [{"name": "W0", "skills": {n: 1.0 for n in names}, "cost": 1.0}]}]}
+            "teams": [{"name": "TM0", "targets": tg, "workers": [{"name": "W0", "skills": skills, "cost": 1.0}]}]}
 
 
 def attrs(t):
     return {k: (v if not isinstance(v, list) else list(v)) for k, v in t.__dict__.items() if k not in ("parent_workflow",)}
 
 
-def one(tmpdir, d, absence, how, remove, u_sub, u_parent, position, tag, prior=None, via_json=False, parent_abs=None):
+def one(tmpdir, d, absence, how, remove, u_sub, u_parent, position, tag, prior=None, via_json=False, parent_abs=None, extra=None):
     out = []
     path, sub_time, sub_status = make_sub(tmpdir, d, absence, how, u_sub, tag)
     n_abs_in = len([a for a in set(absence) if a < sub_time])
@@ -57,7 +63,7 @@ def one(tmpdir, d, absence, how, remove, u_sub, u_parent, position, tag, prior=N
         with warnings.catch_warnings():
             warnings.simplefilter("ignore")
             other.set_all_attributes_from_json(remove_absence_time_list=prior)
-    m = S.build(parent_spec(position, path, u_parent))
+    m = S.build(parent_spec(position, path, u_parent, team_targets_sub=(extra == "team-targets-sub")))
     t = m.byname["SUB"]
     before = attrs(t)
     with warnings.catch_warnings(record=True) as wlist:
@@ -78,6 +84,10 @@ def one(tmpdir, d, absence, how, remove, u_sub, u_parent, position, tag, prior=N
     if abs(t.default_work_amount - dur) > 1e-9:
         out.append(("C20:work-amount-is-not-the-sub-project-duration" + (":absence-removed" if remove else ""), {"default_work_amount": t.default_work_amount, "expected": dur, "sub_time": sub_time, "absence": list(absence)}))
         return out, None
+    if extra == "relate-twice":
+        # the unit is related more than once on the same task object (another time grid first, the real one last)
+        t.set_work_amount_progress_of_unit_step_time(datetime.timedelta(minutes=u_parent * 3))
+        t.set_work_amount_progress_of_unit_step_time(datetime.timedelta(minutes=max(1, u_sub * 2)))
     t.set_work_amount_progress_of_unit_step_time(m.project.unit_timedelta)
     if via_json:
         # the configured parent is saved, loaded into a new project and related to the parent's unit again there
@@ -134,6 +144,8 @@ def one(tmpdir, d, absence, how, remove, u_sub, u_parent, position, tag, prior=N
         out.append(("C20:sub-project-task-did-not-start-when-dependencies-allowed", det))
     if any(w for w in t.allocated_worker_id_record if w):
         out.append(("C20:sub-project-task-was-given-workers", {"workers": t.allocated_worker_id_record}))
+    if extra == "team-targets-sub" and any(int(s) == S.R_WORKING for s in m.byname["W1"].state_record_list):
+        out.append(("C20:worker-busy-on-the-sub-project-task", {"W1_states": [int(s) for s in m.byname["W1"].state_record_list]}))
     if position == "before-succ" and ks:
         q = [int(s) for s in m.byname["Q0"].state_record_list]
         if any(s == S.T_WORKING for s in q[: ks[-1] + 1]):
@@ -149,9 +161,10 @@ def work(chunk):
             d, absence, how, remove, u_sub, u_parent, position, prior = case[:8]
             via_json = bool(case[8]) if len(case) > 8 else False
             parent_abs = case[9] if len(case) > 9 else None
+            extra = case[10] if len(case) > 10 else None
             tag = "%d" % os.getpid()
-            got, want = one(tmpdir, d, absence, how, remove, u_sub, u_parent, position, tag, prior, via_json, parent_abs)
-            key = (d, tuple(absence), how, remove, u_sub, u_parent, position, prior, via_json, tuple(parent_abs) if parent_abs else None)
+            got, want = one(tmpdir, d, absence, how, remove, u_sub, u_parent, position, tag, prior, via_json, parent_abs, extra)
+            key = (d, tuple(absence), how, remove, u_sub, u_parent, position, prior, via_json, tuple(parent_abs) if parent_abs else None, extra)
             col.evaluations += 1
             col.checks["c20." + how] += 1
             col.states.add(hash(key))
@@ -197,6 +210,10 @@ def items(tier):
             for pabs in ((0, 1), (0, 1, 4, 5), (2,)):
                 for pos in ("alone", "after-pred"):
                     out.append((d, (), "success", True, us, up, pos, None, False, pabs))
+        for us, up in ((1, 1), (2, 2), (3, 2), (2, 3), (5, 5)):
+            for pos in ("alone", "after-pred", "beside"):
+                out.append((d, (), "success", True, us, up, pos, None, False, None, "team-targets-sub"))
+                out.append((d, (), "success", True, us, up, pos, None, False, None, "relate-twice"))
         for how in ("failure", "never"):
             for remove in (True, False):
                 out.append((d, (), how, remove, 1, 1, "alone", None))
@@ -213,7 +230,7 @@ def run(tier, seed):
         "rule": "exhaustive grid: sub-projects of duration 1..%d x absence lists (none, step 0, step 1, consecutive, duplicated, beyond the end) saved after success / after FAILURE / never simulated "
         "x remove_absence_time_list x every ordered pair of unit times from {1,2,3,5,60} min x position of the sub-project task in the parent (alone, after an FS predecessor, before a successor, beside a worked task) x history (first use of the saved file, or after another task was "
         "configured from the same file with either flag) x (the configured parent used directly, or saved, loaded and related again; units up to 36 hours) x (parent without absence, or with "
-        "project-wide absence steps and the automatic-task flag set); "
+        "project-wide absence steps and the automatic-task flag set) x (team also assigned to the sub-project task with a worker skilled under its name; unit related several times, the real one last); "
         "oracle: work amount = duration (minus in-range absence steps if requested), WORKING for exactly ceil(duration*u_sub/u_parent) consecutive parent steps from the step dependencies allow, no workers, "
         "successor waits; refusal (warning, task unchanged) for unsuccessful/never simulated sub-projects; non-trivial = successful grid points with different unit times" % (4 if tier == "quick" else 6),
         "bounds": {"grid_points": len(its)},
@@ -225,9 +242,9 @@ def run(tier, seed):
 def replay(v):
     tmpdir = tempfile.mkdtemp(prefix="verif-c20-")
     try:
-        c = list(v["case"]) + [False, None]
-        d, ab, how, remove, us, up, pos, prior, vj, pabs = c[:10]
-        got, want = one(tmpdir, d, tuple(ab), how, remove, us, up, pos, "replay", prior, bool(vj), tuple(pabs) if pabs else None)
+        c = list(v["case"]) + [False, None, None]
+        d, ab, how, remove, us, up, pos, prior, vj, pabs, extra = c[:11]
+        got, want = one(tmpdir, d, tuple(ab), how, remove, us, up, pos, "replay", prior, bool(vj), tuple(pabs) if pabs else None, extra)
         return [{"sig": s, "detail": dd} for s, dd in got]
     finally:
         shutil.rmtree(tmpdir, ignore_errors=True)
